@@ -582,7 +582,9 @@ const fatTeddySmallHaystackThreshold = 64
 // This is the "literal engine bypass" - for exact literal alternations like (foo|bar|baz),
 // Teddy.Find() returns complete matches without needing DFA/NFA verification.
 func (e *Engine) findTeddy(haystack []byte) *Match {
-	if e.prefilter == nil {
+	// Longest (POSIX) mode: the literal engine reports the first alternative that
+	// matches at a position, not the longest one.
+	if e.prefilter == nil || e.longest {
 		return e.findNFA(haystack)
 	}
 
@@ -623,7 +625,9 @@ func (e *Engine) findTeddy(haystack []byte) *Match {
 
 // findTeddyAt searches using Teddy at a specific position.
 func (e *Engine) findTeddyAt(haystack []byte, at int) *Match {
-	if e.prefilter == nil || at >= len(haystack) {
+	// Longest (POSIX) mode: the literal engine reports the first alternative that
+	// matches at a position, not the longest one.
+	if e.prefilter == nil || e.longest || at >= len(haystack) {
 		return e.findNFAAt(haystack, at)
 	}
 
@@ -783,7 +787,9 @@ func (e *Engine) findDigitPrefilterAt(haystack []byte, at int) *Match {
 // This is the "literal engine bypass" for patterns with >32 literals.
 // The automaton performs O(n) multi-pattern matching with ~1.6 GB/s throughput.
 func (e *Engine) findAhoCorasick(haystack []byte) *Match {
-	if e.ahoCorasick == nil {
+	// Longest (POSIX) mode: the literal engine reports the first alternative that
+	// matches at a position, not the longest one.
+	if e.ahoCorasick == nil || e.longest {
 		return e.findNFA(haystack)
 	}
 	atomic.AddUint64(&e.stats.AhoCorasickSearches, 1)
@@ -797,7 +803,9 @@ func (e *Engine) findAhoCorasick(haystack []byte) *Match {
 
 // findAhoCorasickAt searches using Aho-Corasick starting at position 'at'.
 func (e *Engine) findAhoCorasickAt(haystack []byte, at int) *Match {
-	if e.ahoCorasick == nil || at >= len(haystack) {
+	// Longest (POSIX) mode: the literal engine reports the first alternative that
+	// matches at a position, not the longest one.
+	if e.ahoCorasick == nil || e.longest || at >= len(haystack) {
 		return e.findNFAAt(haystack, at)
 	}
 	atomic.AddUint64(&e.stats.AhoCorasickSearches, 1)
